@@ -29,7 +29,7 @@ type txnShape struct {
 
 func runC18(c *core.Ctx) {
 	runFixtures(c, "locks", "drop")
-	c.Explain("Structural clauses of C18 decided from source for every Go-level keyvalue.Transaction implementation found by type (mem.transaction, keyvalue.unsafeSerialTransaction): (R18.1) on every path through Get/GetHandler/Set/SetHandler exactly one result is recorded and its Op is the id returned; (R18.2) every path allocates exactly one id, including the aborted path; (R18.3) every store access in an op method is dominated by the not-aborted edge of an abort check; (R18.4) the handler's error flows into the recorded result's Err; (R18.5) a transaction type whose constructor returns holding a mutex releases it on every path of Commit and of Abort, and each release is idempotent (sync.Once) so Abort followed by Commit cannot unlock twice; (R18.6) in package keyvalue every successfully begun transaction is followed by Commit or Abort on every path (paths that fail only because a callee's ValidPath gate rejected the name are pruned, assumption A7); (R18.7) Commit returns the recorded results in id order (append order, or index-by-id); (R18.8) the in-memory store's transaction constructor holds the store mutex at every successful return (a mode-dependent early return without the lock lets that transaction observe another's partial effects); (R18.9) a transaction's cancel function is invoked only by its Abort and Commit methods — an operation that aborts on its own turns one store error into 'context canceled' for the whole transaction and loses every result. NOT claimed: isolation between concurrent transactions beyond R18.8, that a Get reflects earlier Sets (values), liveness.")
+	c.Explain("Structural clauses of C18 decided from source for every Go-level keyvalue.Transaction implementation found by type (mem.transaction, keyvalue.unsafeSerialTransaction): (R18.1) on every path through Get/GetHandler/Set/SetHandler exactly one result is recorded and its Op is the id returned; (R18.2) every path allocates exactly one id, including the aborted path; (R18.3) every store access in an op method is dominated by the not-aborted edge of an abort check; (R18.4) the handler's error flows into the recorded result's Err; (R18.5) a transaction type whose constructor returns holding a mutex releases it on every path of Commit and of Abort, and each release is idempotent (sync.Once) so Abort followed by Commit cannot unlock twice; (R18.6) in package keyvalue every successfully begun transaction is followed by Commit or Abort on every path (paths that fail only because a callee's ValidPath gate rejected the name are pruned, assumption A7); (R18.7) Commit returns the recorded results in id order (append order, or index-by-id), and with append order every operation reserves its slot before its handler runs (a handler may issue further operations); (R18.8) the in-memory store's transaction constructor holds the store mutex at every successful return (a mode-dependent early return without the lock lets that transaction observe another's partial effects); (R18.9) a transaction's cancel function is invoked only by its Abort and Commit methods — an operation that aborts on its own turns one store error into 'context canceled' for the whole transaction and loses every result. NOT claimed: isolation between concurrent transactions beyond R18.8, that a Get reflects earlier Sets (values), liveness.")
 	c.Assume("A6: partial correctness — 'on every path' means every path that returns",
 		"A7: inside keyvalue.FS a name that reaches setFileTxn was validated by the caller chain (C04/R04.1 checks the gates); paths on which only that validation fails are not required to end the transaction")
 	c.RuleDoc("R18.1", "exactly one result recorded per op call on every path; recorded Op == returned id")
@@ -387,6 +387,10 @@ func flowsToRecord(sh *txnShape, fn *ssa.Function, v ssa.Value) bool {
 			case *ssa.Store:
 				if r.Val == x {
 					if ia, ok := r.Addr.(*ssa.IndexAddr); ok {
+						// results[slot] = result: a store into an element of the result collection kept in the receiver
+						if _, _, isField := ssax.FieldLoad(ia.X); isField && sh.isResultCollection(ia.X.Type()) {
+							return true
+						}
 						if walk(ia.X, d+1) {
 							return true
 						}
@@ -619,6 +623,36 @@ func r18Order(c *core.Ctx, sh *txnShape) {
 		}
 		good, how = false, "unrecognised"
 		break
+	}
+	// append-ordered results: a handler may issue further operations (the interface documents it), so the slot of
+	// an operation must be reserved before its handler runs — otherwise the nested operation's result comes first
+	if good && strings.HasPrefix(how, "returns the append-ordered") {
+		for _, mn := range txnOpMethods {
+			op := sh.methods[mn]
+			if op == nil {
+				continue
+			}
+			orecv := recvParam(op)
+			ssax.Instrs(op, func(ins ssa.Instruction) {
+				hc, ok := ins.(*ssa.Call)
+				if !ok || !hc.Call.IsInvoke() || hc.Call.Method.Name() != "Handle" {
+					return
+				}
+				k2 := tk + "." + mn + "|slot-reserved-before-handler"
+				reserved := false
+				ssax.Instrs(op, func(i2 ssa.Instruction) {
+					if !ssax.Dominates(i2, hc) {
+						return
+					}
+					if mnW, mxW := sh.weight(op, i2, "record", map[*ssa.Function]bool{}); mnW == 1 && mxW == 1 {
+						reserved = true
+					}
+				})
+				_ = orecv
+				c.Check(reserved, "R18.7", k2, p.Pos(hc.Pos()), "the result's slot is appended before the handler runs",
+					fmt.Sprintf("%s appends its result only after handler.Handle returns: an operation issued by the handler (which the Transaction interface allows) is appended first, so Commit returns results[i].Op != i", fname(op)))
+			})
+		}
 	}
 	if good {
 		c.OK("R18.7", key, p.Pos(fn.Pos()), how)
